@@ -82,12 +82,22 @@ func scenarioRelay(c *harness.Ctx, rep int) {
 	// legacy document: default entry without gas limit and without builder section, and a proposer entry
 	v1 := fmt.Sprintf(`{"default_config":{"fee_recipient":"%s"},"proposer_config":{"%#x":{"fee_recipient":"%s","builder":{"enabled":true,"relays":[%q]}}}}`,
 		refcfg.FRHex(3), accts[0].Pub48(), refcfg.FRHex(4), env.RelayAddr(0))
-	var stop atomic.Bool
+	var stop, loaded atomic.Bool
 	reader := func(k int) func() {
 		return func() {
 			for i := 0; !stop.Load(); i++ {
 				a := accts[(i+k)%3]
-				_, _ = env.Svc.ProposerConfig(bg, a, a.Pub48())
+				was := loaded.Load()
+				pc, err := env.Svc.ProposerConfig(bg, a, a.Pub48())
+				// once a configuration has been obtained every lookup is answered from one (the old or the new one), whatever
+				// a refresh is doing at that moment: never with the fallback settings
+				if was && err == nil && pc != nil {
+					c.Count("proposer_lookups_judged", 1)
+					if pc.FeeRecipient == env.FallbackFR {
+						c.Violate("non-sequential-result:proposer-settings-fallback", "a proposer-settings lookup made while configurations were being refreshed was answered with the fallback settings although a configuration had been obtained before and every refresh obtained one", c.CaseID(fmt.Sprintf("block-relay#%d", rep)), nil)
+						return
+					}
+				}
 			}
 		}
 	}
@@ -100,6 +110,7 @@ func scenarioRelay(c *harness.Ctx, rep int) {
 				}
 				env.Config.Set(relaycommon.Outcome{Kind: "valid", Doc: doc})
 				env.Refresh()
+				loaded.Store(true)
 				time.Sleep(200 * time.Microsecond)
 			}
 			stop.Store(true)
@@ -122,6 +133,15 @@ func scenarioRelay(c *harness.Ctx, rep int) {
 				_, _ = env.Svc.BuilderBid(bg, phase0.Slot(3200+i%4), phase0.Hash32{1}, accts[i%3].Pub48())
 			}
 		},
+		func() { // registrations asked for explicitly through the service's interface (e.g. for newly loaded accounts)
+			m := map[phase0.ValidatorIndex]e2wtypes.Account{}
+			for _, a := range accts {
+				m[harness.AcctIndex(a)] = a
+			}
+			for !stop.Load() {
+				_ = env.Svc.SubmitValidatorRegistrations(bg, m)
+			}
+		},
 		func() { // the proposal preparer's periodic job
 			for !stop.Load() {
 				_ = env.Prep.UpdatePreparations(bg)
@@ -139,7 +159,6 @@ func (r *rootNode) BeaconBlockRoot(context.Context, *api.BeaconBlockRootOpts) (*
 	binary.BigEndian.PutUint64(root[:8], r.n.Add(1))
 	return &api.Response[*phase0.Root]{Data: &root, Metadata: map[string]any{}}, nil
 }
-
 
 func scenarioMessenger(c *harness.Ctx, rep int) {
 	env, err := ctlsim.New(ctlsim.Options{SlotsPerEpoch: 4, EpochsPerPeriod: 8, StartSlot: 40, Validators: []uint64{31, 32}})
@@ -182,7 +201,7 @@ func scenarioMessenger(c *harness.Ctx, rep int) {
 
 type mockSyncAgg struct{}
 
-func (mockSyncAgg) SetBeaconBlockRoot(phase0.Slot, phase0.Root) {}
+func (mockSyncAgg) SetBeaconBlockRoot(phase0.Slot, phase0.Root)              {}
 func (mockSyncAgg) Aggregate(context.Context, *synccommitteeaggregator.Duty) {}
 
 type nil2 struct{}
@@ -595,10 +614,10 @@ func main() {
 			}
 			return 7
 		},
-		Parallel:    7,
-		Run:         run,
-		MinDistinct: 12,
+		Parallel:     7,
+		Run:          run,
+		MinDistinct:  12,
 		ChildTimeout: func(string) time.Duration { return 30 * time.Minute },
-		Assumptions: []string{"only overlaps production can create are driven: one head-event goroutine, one block-event goroutine, one config fetcher, one epoch ticker", "a silent race detector means no race on the interleavings that occurred", "attester and scheduler concurrency run under -race in C01 and C02, the signer in C06"},
+		Assumptions:  []string{"only overlaps production can create are driven: one head-event goroutine, one block-event goroutine, one config fetcher, one epoch ticker", "a silent race detector means no race on the interleavings that occurred", "attester and scheduler concurrency run under -race in C01 and C02, the signer in C06"},
 	})
 }
